@@ -57,7 +57,7 @@ Next ==
          a == IF LevelB /\ ~drift /\ ~r.panic THEN Apply(st, r.call) ELSE [st |-> st, out |-> r.out, call |-> r.call]
          dis == IF LevelB /\ ~drift /\ ~r.panic THEN Disagreement(a, r) ELSE {}
      IN  /\ n' = k
-         /\ g' = g2
+         /\ g' = Resync(g2, r, v)
          /\ st' = a.st
          /\ drift' = (drift \/ dis # {} \/ r.panic)
          \* one string per line: TLC wraps long tuples/sets over several lines, strings never
